@@ -29,8 +29,8 @@ theorem trFwd_eq (c : Option (Cmd × List Bytes)) (call : Call) (ws : List TWrap
   | cons w t ih => cases w <;> simp [trFwd, cbs, ih]
 
 theorem trMut_eq (c : Option (Cmd × List Bytes)) (call : Call) (ok : Bool) (ws : List TWrap) :
-    trMut c call ok ws =
-      cbs c ws ++ .call call :: List.replicate (if ok then flushLayers ws else 0) (.call .flush) := by
+    trMut false c call ok ws =
+      (cbs c ws ++ .call call :: List.replicate (if ok then flushLayers ws else 0) (.call .flush), ok) := by
   induction ws with
   | nil => cases ok <;> rfl
   | cons w t ih =>
@@ -40,6 +40,27 @@ theorem trMut_eq (c : Option (Cmd × List Bytes)) (call : Call) (ok : Bool) (ws 
       cases ok
       · simp [trMut, cbs, ih]
       · simp [trMut, cbs, flushLayers, ih, trFwd_eq, cbs_none, List.replicate_succ']
+
+/-- With the fault armed: the first (innermost) `flushkv` layer flushes once and fails, no layer above it flushes. -/
+theorem trMut_fault (c : Option (Cmd × List Bytes)) (call : Call) (ws : List TWrap) :
+    trMut true c call true ws =
+      (cbs c ws ++ .call call :: (if flushLayers ws == 0 then [] else [.call .flush]), flushLayers ws == 0) := by
+  induction ws with
+  | nil => simp [trMut, cbs, flushLayers]
+  | cons w t ih =>
+    cases w with
+    | debug f cb => simp only [trMut, cbs, flushLayers, ih, List.append_assoc]; rfl
+    | flush =>
+      cases h0 : flushLayers t == 0
+      · simp [trMut, cbs, flushLayers, ih, h0]
+      · simp [trMut, cbs, flushLayers, ih, h0, trFwd_eq, cbs_none]
+
+/-- A mutation the store refuses is not followed by any `Flush`, armed or not. -/
+theorem trMut_refused (fe : Bool) (c : Option (Cmd × List Bytes)) (call : Call) (ws : List TWrap) :
+    trMut fe c call false ws = (cbs c ws ++ [.call call], false) := by
+  induction ws with
+  | nil => rfl
+  | cons w t ih => cases w <;> simp [trMut, cbs, ih]
 
 theorem mem_cbs (c : Cmd) (a : List Bytes) (ws : List TWrap) (e : Ev) :
     e ∈ cbs (some (c, a)) ws ↔ ∃ f, TWrap.debug f true ∈ ws ∧ (f &&& c.bit) ≠ 0 ∧ e = .cb f c a := by
